@@ -288,6 +288,27 @@ def _main(argv=None):
             tried = {c[0] for c in cands}
             more = [(run_i, r) for cls, occ in order for run_i, r, v in occ if run_i not in tried][:400]
             confirmed = core.confirm_candidates(prop, seed, more, None, budget_s=180.0)
+    if unknown and not confirmed:
+        # Nothing of the batch reproduces on pristine state: the tree under test may keep process-global state that
+        # reset_process_state() does not know (so that runs of one worker contaminate each other).  Sweep the first
+        # runs of the batch again, each in a forked child of this still pristine process, and confirm what they show.
+        iso = []
+        t_iso = time.monotonic()
+        for i in range(min(nruns, 400)):
+            if time.monotonic() - t_iso > 240:
+                break
+            r = core.run_isolated(runfn, prop, seed=core.run_seed(seed, prop, i))
+            if r.get("status") == "ok" and any(v["property"] == prop for v in r.get("violations", [])):
+                r["run"] = i
+                iso.append((i, r))
+                if len(iso) >= 12:
+                    break
+        if iso:
+            print(f"note: the in-process batch did not reproduce on pristine state; {len(iso)} violating run(s) found by "
+                  f"re-running the first runs in pristine forked processes")
+            confirmed = core.confirm_candidates(prop, seed, iso, None, budget_s=180.0)
+            for cls, (run_i, tape, fres) in confirmed.items():
+                unknown.setdefault(cls, [])
     unconfirmed = [cls for cls in sorted(unknown) if cls not in confirmed]
     shown = 0
     for cls, (run_i, tape, fres) in sorted(confirmed.items()):
